@@ -361,6 +361,8 @@ def compositions(total):
 
 
 def gen_C18(rng, count, tier):
+    # over real sockets: the application writes the next piece from inside bytesWritten(); every body byte is announced
+    yield ("tls", "plain chain")
     n = 0
     # exhaustive part: tiny header block (status line only, 19 bytes) is impossible to shrink below,
     # so enumerate acknowledgement patterns around the header/body edge for a fixed small response
@@ -396,6 +398,8 @@ def gen_C18(rng, count, tier):
 # ------------------------------------------------------------------------------------ C19
 
 def gen_C19(rng, count, tier):
+    # over an established TLS connection: everything written before close() arrives, whatever its size
+    yield ("tls", "tls bigbody")
     for i in range(count):
         reqs = []
         for _ in range(rng.randrange(1, 4)):
